@@ -650,6 +650,33 @@ func (e *SpecEnv) call(c *ECall) Val {
 		// in disjoint residue classes of the lock-id space
 		v := e.eval(c.Args[0])
 		return mkInt("(* 3 " + x.termOf(e.st, v) + ")")
+	case "lockfield":
+		// lockfield(p, f): lock identity of the mutex VALUE field f of the struct p points to
+		// (a *sync.Mutex obtained as &p.f); matches the id used for `guarded ... by f`
+		if len(c.Args) != 2 {
+			e.fail("lockfield(p, field)")
+		}
+		pv := e.eval(c.Args[0])
+		fid, ok := c.Args[1].(*EIdent)
+		if !ok {
+			e.fail("lockfield: field name expected")
+		}
+		pt, ok := pv.Ty.Underlying().(*types.Pointer)
+		if !ok {
+			e.fail("lockfield: pointer to struct expected")
+		}
+		stt, ok := pt.Elem().Underlying().(*types.Struct)
+		if !ok {
+			e.fail("lockfield: pointer to struct expected")
+		}
+		for i := 0; i < stt.NumFields(); i++ {
+			if stt.Field(i).Name() == fid.Name {
+				sn, _ := x.structCanon(pt.Elem())
+				return mkInt(fmt.Sprintf("(* 3 (fieldptr %s %d))", x.termOf(e.st, pv), x.ctx.fieldID(sn, fid.Name)))
+			}
+		}
+		e.fail("lockfield: no field %s", fid.Name)
+		return Val{}
 	case "allocated":
 		// the reference existed in the pre-state
 		v := e.eval(c.Args[0])
